@@ -418,14 +418,41 @@ def _c14():
                 if self._g[self._g.attrs["nodes"][key]]._component_type.name == "PMUX":
                     raise ValueError("a system can only have one PMux")
         # loads have no output rail (warn before anything is modified)''', '''        # loads have no output rail (warn before anything is modified)''', fires=["C14"], silent=[])
-    R("c15-add-comp-pmux-check-after-add", S, '''        cidx = self._g.add_child(pidx[0], comp, None)
+    R("c15-add-comp-pmux-check-after-add", S, '''        # can only have one pmux
+        if comp._component_type.name == "PMUX":
+            for key in self._g.attrs["nodes"]:
+                if self._g[self._g.attrs["nodes"][key]]._component_type.name == "PMUX":
+                    raise ValueError("a system can only have one PMux")
+        # loads have no output rail (warn before anything is modified)
+        if comp._component_type == _ComponentTypes.LOAD and rail != "":
+            warn(
+                "rail parameter ignored, not applicable on loads",
+                stacklevel=2,
+            )
+            rail = ""
+        # all ok, add component
+        cidx = self._g.add_child(pidx[0], comp, None)''', '''        # loads have no output rail (warn before anything is modified)
+        if comp._component_type == _ComponentTypes.LOAD and rail != "":
+            warn(
+                "rail parameter ignored, not applicable on loads",
+                stacklevel=2,
+            )
+            rail = ""
+        # all ok, add component
+        cidx = self._g.add_child(pidx[0], comp, None)
+        # can only have one pmux
+        if comp._component_type.name == "PMUX":
+            for key in self._g.attrs["nodes"]:
+                if self._g[self._g.attrs["nodes"][key]]._component_type.name == "PMUX":
+                    raise ValueError("a system can only have one PMux")''', fires=["C15"])
+    R("eq-add-comp-pmux-check-repeated-after-add", S, '''        cidx = self._g.add_child(pidx[0], comp, None)
         self._g.attrs["nodes"][comp._params["name"]] = cidx''', '''        cidx = self._g.add_child(pidx[0], comp, None)
         # can only have one pmux
         if comp._component_type.name == "PMUX":
             for key in self._g.attrs["nodes"]:
                 if self._g[self._g.attrs["nodes"][key]]._component_type.name == "PMUX":
                     raise ValueError("a system can only have one PMux")
-        self._g.attrs["nodes"][comp._params["name"]] = cidx''', fires=["C15"])
+        self._g.attrs["nodes"][comp._params["name"]] = cidx''', silent=["C14", "C15", "C16"], note="the same check repeated after the first modification can never fire: the path is infeasible")
     R("c15-change-comp-validate-after-replace", S, '''        # check that component allows its existing childs
         childs = self._get_childs()''', '''        self._g[eidx] = comp
         # check that component allows its existing childs
